@@ -83,8 +83,9 @@ def prim_values(t, text_max=20, year_lo=1, year_hi=9999, special_floats=True, de
 class ValueGen(object):
     """strategies of tagged-JSON values for trefs of universe U"""
 
-    def __init__(self, U, max_arr=3, poly=False, full=False, **prim_kw):
+    def __init__(self, U, max_arr=3, poly=False, full=False, nil_items=False, **prim_kw):
         self.full = full          # never None, never empty: "fully populated" objects
+        self.nil_items = nil_items     # None entries inside sequences of a nillable element type
         self.nil_unspellable = False   # formats that cannot spell null: mandatory => present
         self.U = U
         self.cspec = {c["name"]: c for c in U["classes"]}
@@ -124,7 +125,8 @@ class ValueGen(object):
             inner = dict(t["of"])
             # members of a wrapped array: spyne declares them minOccurs=0 maxOccurs=unbounded,
             # nillable per the member type
-            elem = self.single(inner, depth + 1)
+            elem = self._items(self.single(inner, depth + 1),
+                               (inner.get("occ") or {}).get("nillable", True))
             sizes = st.sampled_from(([] if self.full else [0]) + [1, 2, self.max_arr, self.max_arr]
                                     + ([12] if depth == 0 else []))
             return sizes.flatmap(lambda n: st.lists(elem, min_size=n, max_size=n))
@@ -132,6 +134,11 @@ class ValueGen(object):
             names = self.subclasses(t["n"]) if self.poly else [t["n"]]
             return st.sampled_from(names).flatmap(lambda cn: self.obj(cn, t["n"], depth))
         raise ValueError(k)
+
+    def _items(self, elem, nillable):
+        if self.nil_items and nillable and not self.full:
+            return st.one_of(elem, elem, elem, st.none())
+        return elem
 
     def obj(self, cname, declared, depth):
         fields = self.all_fields(cname)
@@ -159,7 +166,8 @@ class ValueGen(object):
         if mx != 1:
             top = self.max_arr if mx == "unbounded" else mx
             sizes = sorted(set(n for n in (mn, mn + 1, top, 2) if mn <= n <= top and n > 0))
-            lst = st.sampled_from(sizes).flatmap(lambda n: st.lists(one, min_size=n, max_size=n))
+            item = self._items(one, nil)
+            lst = st.sampled_from(sizes).flatmap(lambda n: st.lists(item, min_size=n, max_size=n))
             if mn == 0 and not self.full:
                 return st.one_of(st.none(), lst, lst)
             return lst
